@@ -70,14 +70,17 @@ def lastRetIdx : List Instr → Option Nat
     | some i => some (i + 1)
     | none => if isRet x then some 0 else none
 
+/-- body of `for i := lo+1; i < hi; i++ { if p(b[i]) { last = i } }` -/
+def lastStep (b : List Instr) (lo : Nat) (p : Instr → Bool) (acc : Option Nat) (i : Nat) : Option Nat :=
+  if lo < i then
+    match b[i]? with
+    | some x => if p x then some i else acc
+    | none => acc
+  else acc
+
 /-- `for i := lo+1; i < hi; i++ { if p(b[i]) { last = i } }` -/
 def lastIdxIn (b : List Instr) (lo hi : Nat) (p : Instr → Bool) : Option Nat :=
-  (List.range hi).foldl (fun acc i =>
-    if lo < i then
-      match b[i]? with
-      | some x => if p x then some i else acc
-      | none => acc
-    else acc) none
+  (List.range hi).foldl (lastStep b lo p) none
 
 /-- `for i := lo+1; i < hi; i++ { if p(b[i]) { found = true; break } }` -/
 def anyIn (b : List Instr) (lo hi : Nat) (p : Instr → Bool) : Bool :=
